@@ -57,11 +57,69 @@ def runReqCookies : ArgList → List Bytes → Option ArgList
   | cs, k :: v :: rest => runReqCookies (reqSetCookie cs k v) rest
   | _, _ => none
 
+/-- a small pool of Cookie objects plus one ResponseHeader cookie store; ops are triples (opcode, slot, argument) -/
+structure CkSeqSt where
+  slots : List Cookie := [{}, {}, {}]
+  store : ArgList := []
+  obs : List String := []
+
+def CkSeqSt.get (st : CkSeqSt) (i : Nat) : Cookie := st.slots.getD i {}
+def CkSeqSt.put (st : CkSeqSt) (i : Nat) (c : Cookie) : CkSeqSt := { st with slots := st.slots.set i c }
+
+def ckSetterOp (op : Char) (a : Bytes) : Option CkObjOp :=
+  match op with
+  | 'K' => some (.setKey a)
+  | 'V' => some (.setValue a)
+  | 'D' => some (.setDomain a)
+  | 'P' => some (.setPath a)
+  | 'M' => (intOfBytes? a).map .setMaxAge
+  | 'E' => if a.isEmpty then some (.setExpire none) else (natOfDec? a).map fun t => .setExpire (some t)
+  | 'H' => some (.setHTTPOnly (a != [48]))
+  | 'S' => some (.setSecure (a != [48]))
+  | 'X' => (natOfDec? a).map fun n => .setSameSite (sameSiteOfNat n)
+  | 'T' => some (.setPartitioned (a != [48]))
+  | 'Z' => some .reset
+  | 'A' => some .reset
+  | _ => none
+
+def runCkSeq : CkSeqSt → List Bytes → Option CkSeqSt
+  | st, [] => some st
+  | st, [op] :: [sl] :: a :: rest =>
+    let i := sl.toNat % 3
+    let c := st.get i
+    match Char.ofNat op.toNat with
+    | 'R' =>
+      let r := Cookie.parseInto ckDate a
+      runCkSeq { (st.put i r.1) with obs := ("R:" ++ (match r.2 with | none => "ok" | some e => renderErr e)) :: st.obs } rest
+    | 'C' =>
+      match a with
+      | [j] => -- CopyTo resets the receiver first: copying an object onto itself leaves it empty
+        runCkSeq (st.put i (if j.toNat % 3 = i then {} else st.get (j.toNat % 3))) rest
+      | _ => none
+    | 'W' => runCkSeq { st with obs := ("W:" ++ hex (c.appendBytes ckDate)) :: st.obs } rest
+    | 'h' =>
+      let w := c.appendBytes ckDate
+      if w.isEmpty then runCkSeq st rest
+      else runCkSeq { st with store := setArg st.store (removeNewLines c.key) (some (removeNewLines w)) } rest
+    | 'g' =>
+      match peekArg st.store c.key with
+      | none => runCkSeq { st with obs := "g:none" :: st.obs } rest
+      | some v =>
+        let r := Cookie.parseInto ckDate v
+        runCkSeq { (st.put i r.1) with obs := ("g:" ++ (match r.2 with | none => "ok" | some e => renderErr e)) :: st.obs } rest
+    | o =>
+      match ckSetterOp o a with
+      | some ob => runCkSeq (st.put i (c.applyObj ckDate ob)) rest
+      | none => none
+  | _, _ => none
+
 def opsCookie (op : String) (a : List Bytes) : Option String :=
   match op, a with
   | "ckbuild", ops => (runCookieOps {} ops).map fun c =>
       let w := c.appendBytes ckDate
       hex w ++ " | " ++ renderCookie c ++ " | " ++ renderParse (Cookie.parseBytes ckDate w) ++ " | " ++ renderAttrs (Spec.rfcAttrs w)
+  | "ckseq", ops => (runCkSeq {} ops).map fun st =>
+      ";".intercalate st.obs.reverse ++ ";F:" ++ "|".intercalate (st.slots.map renderCookie)
   | "ckparse", [src] =>
       let r := Cookie.parseBytes ckDate src
       some (renderParse r ++ " | " ++ (match r with | .ok c => hex (c.appendBytes ckDate) | .error _ => "-"))
